@@ -7,6 +7,7 @@ import (
 
 	"pgregory.net/rapid"
 
+	"github.com/free5gc/go-upf/internal/verif/rxwindow"
 	"github.com/free5gc/go-upf/internal/verif/sessmodel"
 	"github.com/free5gc/go-upf/internal/verif/stack"
 	"github.com/free5gc/go-upf/internal/verif/vcore"
@@ -65,10 +66,20 @@ func report(t vcore.Failer, c sessmodel.Case, r sessmodel.Result) {
 func TestC04(t *testing.T) {
 	files, explicit := vcore.ReplayFiles()
 	for _, f := range files {
-		var c sessmodel.Case
-		if err := vcore.LoadReplayCase(f, &c); err != nil {
+		var w struct {
+			sessmodel.Case
+			Lost *rxwindow.LostCase `json:"lost"`
+		}
+		if err := vcore.LoadReplayCase(f, &w); err != nil {
 			t.Fatalf("replay %s: %v", f, err)
 		}
+		if w.Lost != nil {
+			vcore.E.Eval()
+			vcore.E.Class("replayed")
+			vcore.Report(t, rxwindow.RunLost(*w.Lost), map[string]any{"lost": w.Lost})
+			continue
+		}
+		c := w.Case
 		r := sessmodel.Run(c, or)
 		account(c, r)
 		vcore.E.Class("replayed")
@@ -94,4 +105,7 @@ func TestC04(t *testing.T) {
 		}
 		report(rt, c, r)
 	})
+	// an Establishment Response that could not be sent: the retransmitted request gets it, and the UP SEID it issues resolves
+	// to that session and to no other (package rxwindow)
+	rxwindow.LostPart(t)
 }
